@@ -8,7 +8,7 @@
     Derived notions: Actor/SpecLife.v.  Statements only; proofs in Actor/ProofsLife*.v. *)
 From Coq Require Import List NArith ZArith Bool.
 From Vivid Require Import Base.Tm Actor.Core Actor.CoreRun Actor.SpecLife Actor.ProofsLife Actor.ProofsLifeInv Actor.ProofsLifeSum
-  Actor.ProofsLifePhase Actor.ProofsLifeGen Actor.ProofsLifeTree Actor.ProofsLifeLog Actor.ProofsLifeEx.
+  Actor.ProofsLifePhase Actor.ProofsLifeGen Actor.ProofsLifeTree Actor.ProofsLifeLog Actor.ProofsLifeFirst Actor.ProofsLifeEx.
 Import ListNotations.
 Local Open Scope N_scope.
 
@@ -193,6 +193,33 @@ Theorem C05_first_is_launch_refuted :
     err s = false /\ seen_of a (olog s) = m :: rest /\ m <> MLaunch.
 Proof. exact first_is_launch_refuted. Qed.
 
+(** the strongest true statement we have: from the moment OnLaunch is first in line - it is at the head of the
+    system queue of an actor that has handled nothing yet ([fresh]: Running, no handler active) and whose consumer is
+    idle - the first message the behaviour sees is OnLaunch, whatever any thread does afterwards (tells, kills, pauses,
+    further spawns; all schedules).  [launch_first] is defined in Actor/ProofsLifeFirst.v:
+      launch_first c s := exists x e r, get s c = Some x /\ fresh x /\ a_cons x = C0 /\ a_sq x = e :: r /\
+                                        e_msg e = MLaunch /\ seen_of c (olog s) = [].
+    What is missing for the full property is exactly the window of the finding: between the registration of the path
+    and the insertion of the OnLaunch envelope nothing else may be inserted into the new mailbox (and the consumer must
+    not run) - [C05_launch_push_establishes] needs the queue to be still empty at that insertion. *)
+Theorem C05_first_is_launch_partial c s evs :
+  c <> 0%nat -> reachable s -> launch_first c s -> err (run_events evs s) = false ->
+  forall m rest, seen_of c (olog (run_events evs s)) = m :: rest -> m = MLaunch.
+Proof. exact (launch_first_stable c s evs). Qed.
+
+(** ActorOf's tell of OnLaunch is addressed to the new context's own mailbox ... *)
+Theorem C05_spawn_launch_resolves s c p g pa sp :
+  get s c = Some (new_actor p g pa sp) -> alookup (reg s) p = Some c ->
+  fst (resolve s (RObj c)) = MbActor c.
+Proof. exact (spawn_launch_resolves s c p g pa sp). Qed.
+
+(** ... and its insertion into the still untouched mailbox establishes [launch_first] *)
+Theorem C05_launch_push_establishes s t c x sender rest :
+  get s c = Some x -> fresh x -> a_cons x = C0 -> a_sq x = [] -> seen_of c (olog s) = [] ->
+  pend_of s t = IEnqR true (MbActor c) sender MLaunch :: rest -> t <> TA c ->
+  launch_first c (step s (EvPush t 0)).
+Proof. exact (launch_push_establishes s t c x sender rest). Qed.
+
 (** ============================ examples ============================ *)
 
 (** a supervised restart (one-for-one, decision Restart, provider configured, all hooks succeed): the child /1/1
@@ -225,6 +252,15 @@ Example C05_ex_after_own_killed :
   reachable tree_final /\ seen_of 2 (olog tree_final) = [MLaunch; MKill (RObj 1) false] ++ [MKilled (RObj 2)].
 Proof. split; [exists tree_scripts, tree_events; split; [reflexivity|vm_compute; reflexivity]|vm_compute; reflexivity]. Qed.
 
+(** [launch_first] holds in a reachable state: right after the OnLaunch of /1 was inserted (no race) *)
+Example C05_ex_launch_first :
+  let s := run_events [EvStart 0; EvPush (TX 0) 0] (init_with [[ASpawn (leaf 1)]]) in
+  reachable s /\ launch_first 1 s.
+Proof.
+  cbv zeta. split; [eexists _, _; split; [reflexivity|vm_compute; reflexivity]|].
+  eexists _, _, _. split; [vm_compute; reflexivity|]. vm_compute. repeat split; try discriminate.
+Qed.
+
 Print Assumptions C05_prelaunch_fail.
 Print Assumptions C05_prelaunch_fail_creates_nothing.
 Print Assumptions C05_spawn_ok_shape.
@@ -241,3 +277,6 @@ Print Assumptions C05_nothing_after_own_killed.
 Print Assumptions C05_after_own_killed_state.
 Print Assumptions C05_killed_dead_letters.
 Print Assumptions C05_first_is_launch_refuted.
+Print Assumptions C05_first_is_launch_partial.
+Print Assumptions C05_spawn_launch_resolves.
+Print Assumptions C05_launch_push_establishes.
